@@ -216,6 +216,58 @@ def wildcard_stream(ck, srcs, targets=("sql.sqlite", "sql.duckdb", "sql.bigquery
                             lambda c: None)
 
 
+def dedup_stream(ck, srcs, targets=("sql.sqlite", "sql.postgres")):
+    """Tie B for Model/Dedup.v: every real call of deduplicate_select_items (second hook) vs the model"""
+    reqs = [{"src": s, "target": t, "want": [], "msg_prefix": "verif:deduplicate_select_items"} for s in srcs for t in targets]
+    ans = harness("log", reqs)
+    calls = {}
+    for rq, a in zip(reqs, ans):
+        for e in a.get("entries", []):
+            m = e.get("Message")
+            if m:
+                d = json.loads(m[len("verif:deduplicate_select_items "):])
+                calls.setdefault(json.dumps(d["items"]), (d, rq["src"]))
+    keys = sorted(calls)
+    ck.coverage["dedup_calls_distinct"] = len(keys)
+    ck.coverage["dedup_calls_that_drop"] = sum(1 for k in keys if calls[k][0]["dropped"])
+
+    def enc(items):
+        names = {}
+        def nid(x):
+            return names.setdefault(x, len(names))
+        out = []
+        for it in items:
+            if it == "other":
+                out.append("IOther")
+            elif "alias" in it:
+                out.append("IAlias %d" % nid(it["alias"]))
+            else:
+                out.append("ICompound [%s]" % "; ".join(str(nid(x)) for x in it["compound"]))
+        return "[" + "; ".join(out) + "]", names
+    exprs, meta = [], []
+    for k in keys:
+        d, src = calls[k]
+        term, names = enc(d["items"])
+        exprs.append("(map (fun it => match it with ICompound ids => (0%%N, map N.of_nat ids) | IAlias a => (1%%N, [N.of_nat a]) | IOther => (2%%N, []) end) (dedup [] %s))" % term)
+        meta.append((d, src, names))
+    header = "From Coq Require Import List Arith NArith.\nFrom PV Require Import Model.Dedup.\nImport ListNotations.\n"
+    vals = coq_eval(header, exprs) if exprs else []
+    for (d, src, names), v in zip(meta, vals):
+        ck.count("dedup", json.dumps(d["items"]), nontrivial=len(d["items"]) > 1)
+        inv = {n: s_ for s_, n in names.items()}
+        got = []
+        for tag, ids in v:
+            if tag == 0:
+                got.append({"compound": [inv[i] for i in ids]})
+            elif tag == 1:
+                got.append({"alias": inv[ids[0]]})
+            else:
+                got.append("other")
+        if got != d["kept"]:
+            ck.disagreement("deduplicate_select_items: implementation differs from Model/Dedup.v (program %s)" % src.replace("\n", " | ")[:200],
+                            {"items": d["items"], "implementation_kept": d["kept"], "model_kept": got, "prql": src}, lambda c: None)
+
+
 def run():
     ck = Check("C05", level="proof")
     pr = ck.prove()
@@ -268,6 +320,7 @@ def run():
     ck.coverage["programs_without_final_select"] = len({r["prql"] for r in recs if not r["program"].meta.get("final_select", True)})
     srcs = sorted({r["prql"] for r in recs})
     wildcard_stream(ck, srcs)
+    dedup_stream(ck, srcs)
     ck.proof_broken_violation(found_input=bool(ck.violations))
     ck.assumptions += ["every table has an extra column `zz` that no program mentions, so a `*` the compiler emits expands at run time to more than the compiler knows",
                        "unnamed frame columns (expressions without alias, names shadowed by a later column of the same name) impose no name, only a position"]
